@@ -29,6 +29,10 @@ ASSUMPTIONS = [
 
 
 def generate(tape, tier="quick"):
+    if tape.chance(1, 40):
+        # metadata objects shared between slots and reused for a second composition (sim/shared.py, family SH)
+        from ..shared import gen_shared
+        return gen_shared(tape)
     if tape.chance(1, 25):
         # compositions of real library components only (sim/library.py)
         from ..library import gen_library
@@ -56,8 +60,16 @@ CAL_OWN = ('cal-run-raises', 'cal-value')
 
 RULE = RULE + (' A 1/120 share is the large family (gen.gen_e1_long): a series of 14-70 components each reading its upstream neighbour while connecting, listed downstream-first / upstream-first / shuffled, or an hourly producer read through a delay of 130-260 hours by a slow consumer (and directly by a prompt one).')
 
+RULE = RULE + (' A 1/40 share is family SH (sim/shared.py): 1-3 real CallbackGenerators on grids and units of their own feed the inputs of one real DebugConsumer; all inputs are declared with ONE request Info (grid unset, units unset or convertible), and the composition is built and run once or twice from the very same Info objects with different start times; oracles owned here: sh-run-raises, sh-value (every pull delivers what the source published for the requested time).')
+REAL = list(REAL) + ["CallbackGenerator, DebugConsumer built twice from shared Info objects (family SH)"]
+
 
 def execute(sc):
+    if sc.get("engine") == "SH":
+        from ..shared import run_shared
+        r = run_shared(sc)
+        r["violations"] = [x for x in r["violations"] if x["oracle"] in ('sh-run-raises', 'sh-value')]
+        return r
     if sc.get("engine") == "L":
         from ..library import run_library
         r = run_library(sc)
@@ -80,6 +92,6 @@ def execute(sc):
 
 
 def known_sig(sc, v):
-    if sc.get("engine") in ("K", "L"):
+    if sc.get("engine") in ("K", "L", "SH"):
         return None
     return e1_known_sig(sc, v)
